@@ -8,6 +8,10 @@ mod scenario;
 #[allow(dead_code)]
 mod gen;
 
+#[path = "../../../sim/src/seeds.rs"]
+#[allow(dead_code)]
+mod seeds;
+
 use prng::Rng;
 use scenario::{ConfigSpec, Deco};
 use std::panic::{catch_unwind, AssertUnwindSafe};
